@@ -36,12 +36,23 @@ __all__ = [
 
 @cache
 def find_rule(source: Any, name: str) -> Func | None:
-    for rulename in {name, name.strip('_'), f'_{name}_', f'_{name}'}:
+    # note: the rule's own name first: a set here let a rule named '_x'
+    #   answer for the rule 'x', depending on the hash seed
+    for rulename in (name, name.strip('_'), f'_{name}_', f'_{name}'):
         if not rulename:
             continue  # a name made only of underscores
-        action = getattr(source, safe_name(rulename), None)
+        attr = safe_name(rulename)
+        action = getattr(source, attr, None)
         if callable(action):
             return action
+        if attr.startswith('__') and not attr.endswith('__'):
+            # the method of a rule named '__x' is stored as '_Class__x'
+            owner = source if isinstance(source, type) else type(source)
+            for cls in owner.__mro__:
+                mangled = f'_{cls.__name__.lstrip("_")}{attr}'
+                action = getattr(source, mangled, None)
+                if callable(action):
+                    return action
     return None
 
 
